@@ -7,12 +7,14 @@ if os.path.exists('/verif/seeded/RESULTS.tsv'):
     for l in open('/verif/seeded/RESULTS.tsv').read().splitlines()[1:]:
         f = l.split('\t')
         if len(f) >= 6: res[f[0]] = f
-rows = ["| seeded change | property | needs, in order to manifest | quick check on the current tree | first signature | note |", "|---|---|---|---|---|---|"]
+rows = ["| seeded change | property | needs, in order to manifest | check on the current tree (quick tier unless noted) | first signature | note |", "|---|---|---|---|---|---|"]
 for d in sorted(glob.glob('/verif/seeded/*/')):
     n = os.path.basename(d.rstrip('/'))
     m = json.load(open(d + 'meta.json'))
     r = res.get(n)
     verdict = "not re-run" if not r else ("patch no longer applies" if r[3] == 'NO' else ("VIOLATION (caught)" if r[4] == '1' else "exit %s (MISSED)" % r[4]))
+    if r and r[2] == 'thorough':
+        verdict += " - thorough tier; the quick tier does not reach it"
     sig = r[5] if r and len(r) > 5 else ""
     note = ""
     ob = m.get("observed", "")
